@@ -232,6 +232,9 @@ def native(seed=0):
                 raised = False
             except RuntimeError:
                 raised = True
+            if expect_raise and not raised and sol is None:
+                bad.append(dict(what="screening did not converge within the budget: no error reached the caller, solve() returned None", budget=budget, tolerance=tol))
+                continue
             if expect_raise and not raised:
                 with h5py.File(sol.path, "r") as f:
                     its = np.concatenate([np.atleast_1d(np.array(f["data"][k]["running_state"]["screening_iterations"])) for k in f["data"] if "running_state" in f["data"][k]])
